@@ -32,6 +32,7 @@ from typing import Dict, Any, List
 from collections import defaultdict
 from datetime import datetime, timedelta, timezone
 import json
+import copy
 
 from fim.user.topology import ExperimentTopology
 from fim.user.node import Node, NodeType
@@ -159,6 +160,8 @@ class ResourceAuthZAttributes:
             resource_name = self.NSTYPE_LUT[sliver.resource_type]
             # site must be set (typically set by Topology.validate())
             if not sliver.site:
+                # the placeholder goes on a copy: the caller's sliver is left as it was
+                sliver = copy.copy(sliver)
                 sliver.site = "UNKNOWN-SITE"
             # Additional condition for PortMirror to not throw an error if the
             # port being mirrored is within the same slice: such a service does not
